@@ -36,6 +36,9 @@ structure TState where
   monAcc : List (Nat × List (Ev Obj)) := []
   /-- the action of the current round was `Refilter(id, f)` outside a burst -/
   lastRefilter : Option (Nat × Filter) := none
+  /-- number of events buffered for a healthy leaf at the instant everything was durably blocked, before any
+      virtual time passed (only recorded in scenarios without injected sleeps) -/
+  instant : List (Nat × Nat) := []
 
 def lookupNat {α : Type} (k : Nat) (l : List (Nat × α)) : Option α := (l.find? (·.1 == k)).map (·.2)
 
@@ -136,6 +139,10 @@ def treeLine (st : TState) (e : SExp) : TState × String :=
     match id.toNat? with
     | some id => treeAct st (.unstall id)
     | none => (st, "bad unstall")
+  | .list [.atom "instant", .atom id, .atom n] =>
+    match id.toNat?, n.toNat? with
+    | some id, some n => ({ st with instant := setNat id n st.instant }, "ok")
+    | _, _ => (st, "bad instant")
   | .list [.atom "burst-begin"] => ({ st with inBurst := true, fuzzy := [], burstRound := true }, "ok")
   | .list [.atom "burst-end"] => ({ st with inBurst := false }, "ok")
   | .list [.atom "obs", .atom id, r, d, c, evs, ec] =>
@@ -151,7 +158,13 @@ def treeLine (st : TState) (e : SExp) : TState × String :=
       let ievs : List (Ev Obj) := if hasEvents && !stalled then (decEvs evs).getD [] else []
       let mevs := if hasEvents && !stalled then s.pendingOf id else []
       let sys' := if hasEvents && !stalled then s.drain id else s
-      let st1 := { st with sys := sys', roundCache := setNat id c st.roundCache }
+      let inst := lookupNat id st.instant
+      let st1 := { st with sys := sys', roundCache := setNat id c st.roundCache, instant := st.instant.filter (·.1 != id) }
+      -- C10: with no sleeps injected, delivery to a healthy leaf takes no (virtual) time at all: nothing in the
+      -- pipeline may wait on a timer, whatever its stalled siblings do
+      if (match inst with | some n => decide (ievs.length > n) | none => false) then
+        ({ st1 with dead := true }, s!"reject C10 {kind} node {id} had {inst.getD 0} of its {ievs.length} events when every goroutine was blocked with no virtual time elapsed: the pipeline waits on a timer (a stalled consumer delays its siblings)")
+      else
       let parent := ((s.node id).map (·.parent)).getD 0
       -- ---- specification-level checks on the implementation's own observations
       let specBad : Option String :=
